@@ -3,6 +3,12 @@
 import json, subprocess
 
 CHECKS = {
+ "C11": dict(level="exploration", design="5/C11", technique="complete grid over kernels x operations x lengths x alignments x contents x scalars against element-wise reference arithmetic, in release and debug-assertions builds",
+   text="Every kernel compiled for x86-64 (AVX-512, AVX2, SSSE3, portable; each called individually through the hook, so dead code on this CPU is executed) and the dispatcher, every length 0..=320 (200 quick), destination offsets 0..63, 7 source offsets, all 256 scalars on boundary lengths, rotations giving every lane every byte value, one-hot positions and packed bit vectors with every padding-bit count; results must equal element-wise GF(256) arithmetic and nothing outside the destination may change.",
+   note="NEON cannot execute here; lengths > 320 not enumerated."),
+ "C12": dict(level="exploration", design="5/C12", technique="the C11 kernel grid, the complete slab pair grid and whole encode/decode workloads enumerated under a guard-page allocator (every heap operand flush against a PROT_NONE page, at its end and at its start) in child processes",
+   text="Out-of-bounds accesses are made observable rather than inferred: a page-heap global allocator places every heap allocation against an inaccessible page; the complete kernel grid, all (dest, src) pairs of 1..6-symbol slabs with four mappings, and encode/decode workloads run under both placements; a fault is a violation with the case in flight as replay. Aliasing/range refusals and the index-range facts of the unchecked table look-ups are enumerated completely.",
+   note="Stacked-borrows aliasing is not judged (Miri part not built); NEON cannot execute."),
  "C13": dict(level="exploration", design="5/C13", technique="exhaustive enumeration of all 2^32 payload IDs and per-field-complete OTI grid against reference layouts",
    text="Every 4-byte payload ID (thorough: all 2^32; quick: 8 SBNs x all 2^24 ESIs) is parsed, read back and re-serialised and compared with the RFC layout written independently; OTI fields are each enumerated over their whole width against three backgrounds, packets over payload lengths 0..=300 and 65535.",
    note="The 88-bit OTI space is covered per field (each output byte is a function of one field, which the grid verifies lane by lane), not as a product. Big-endian RFC 3.2/3.3 layout as written in rfcref."),
@@ -36,9 +42,21 @@ CHECKS = {
  "C06": dict(level="exploration", design="5/C06", technique="complete product over all 477 K' x {K', min K} x {dense, sparse} x {direct, plan replay}, certificate check by the reference model; repeated in the debug-assertions build",
    text="For every block size the encoder is built in all four variants on the real code; all variants must succeed, agree, and satisfy every LDPC/HDPC/LT relation evaluated by the reference model. The thorough tier is the complete product (exhaustive over the finite set of block sizes).",
    note="Quick tier restricts the dense back-end to K'<=1100. Checked-profile runs stop at K'=1100 (cubic self-checks)."),
+ "C16": dict(level="model_checking", design="5/C16", technique="bounded exhaustive exploration of admissible operation sequences on real dense + sparse matrices against a plain-array model (exact dedup on the objects' Hash/Eq), plus lock-step traces of the real solver over a forwarding BinaryMatrix implementation",
+   text="All admissible sequences (depth 3 quick / 4 thorough) of interface operations over boundary alphabets from seeds whose dense tails cross the 64-bit word boundary are applied to a real DenseBinaryMatrix, a real SparseBinaryMatrix and a 2-D array with undefined cells; all cells and all queries must agree in every state. The real solver is additionally run on a matrix that forwards every call to both implementations and the model, for encoding (K'<=101 quick / 500 thorough) and decoding traces, in release and debug-assertions builds.",
+   note="Admissibility = preconditions read off the code; matrices whose dense tail was dropped are only exercised with get/set/swap/add/resize."),
+ "C17": dict(level="model_checking", design="5/C17", technique="loom DPOR exploration of all interleavings of real threads on the real cache code (shadow manifest over /repo/src), plus explicit-state exploration of request histories on the real global cache against a FIFO model",
+   text="Seven loom harnesses (same size, overlapping sizes, insert races eviction, hit races eviction, double eviction; 2-3 threads; unbounded DPOR where feasible, preemption bound 2-4 otherwise) run the real SourceBlockEncoder::new against the real cache compiled with loom primitives; every execution checks transparency and the cache invariants. Request histories around the capacity are explored to a depth bound with the snapshot as exact state.",
+   note="<= 3 threads; std Mutex internals trusted; loom failure replay = deterministic re-exploration of the named model.", engine="rqcheck+rqloom"),
  "C18": dict(level="exploration", design="5/C18", technique="complete enumeration of windows (s,n), whole repair streams and plan instances; differential oracle (window vs singles, plan vs plan)",
    text="All windows with s+n<=24 and the windows at the 2^24 end for every K of the ladder, two complete 2^24-K streams under two tilings, six ways of obtaining an encoder per K, and the per-object packet list over a configuration box.",
    note="Requests beyond ESI 2^24-1 are outside the property and not judged."),
+ "C07": dict(level="exploration", design="5/C07", technique="complete enumeration of the configuration lattice (4 builds x kernel family x threshold x plan mode) with a differential digest oracle",
+   text="Every configuration that exists on this host (144 in the quick tier: {release, debug-assertions+overflow-checks} x {std, no_std} x {auto/AVX-512, AVX2, SSSE3, portable} forced through the dispatchers x sparse threshold {0,250,inf} x {cache cold/warm, explicit plan, unplanned}) runs the same workload; packets, decode outcomes and decoded bytes must be identical for every item, including a rank-deficient set and a set that forces the fast path to fall back.",
+   note="NEON, non-x86 targets and other compilers cannot run here. The debug-assertions builds run a reduced K ladder (cubic self-checks)."),
+ "C09": dict(level="exploration", design="5/C09", technique="complete grid K x T (every residue of the kernel strides) x kernel family x plan mode with metamorphic linearity/column-independence relations",
+   text="For every symbol size 1..=192 (130 quick) and boundary sizes, every kernel family and three ways of building the encoder: byte j of every packet equals the 1-byte packet of column j for every j; additivity for all data pairs; homogeneity for all 256 scalars; decode per T.",
+   note="T outside the alphabet is not enumerated; data alphabet {pos, lcg, unit0, ff} lifted by linearity itself."),
  "C10": dict(level="exploration", design="5/C10", technique="exhaustive enumeration of the finite domain (256^2 pairs, 256^3 triples, all table entries) against a shift-and-xor reference",
    text="Complete enumeration of the whole finite input domain of the field arithmetic and of every derived table entry against an independent polynomial-arithmetic reference; exhaustive, so the property is decided outright for this build.",
    note="Trusts only the field polynomial 0x11D / generator 2 (the reference checks that 2 generates all 255 units)."),
@@ -60,7 +78,9 @@ def main():
         "add_only": True,
       },
       "engines": [
-        {"name": "rqcheck", "path": "harness/", "serves_properties": sorted(CHECKS), "kind_free_text": "own bounded-exhaustive explorers (state-graph DFS over clones of the real objects, complete grids / finite domains) with an independent RFC 6330 reference model (harness/src/rfcref.rs) run in lock-step"},
+        {"name": "rqcheck", "path": "harness/", "serves_properties": sorted(CHECKS), "kind_free_text": "own bounded-exhaustive explorers (state-graph DFS/BFS over clones of the real objects, subset lattices, complete grids / finite domains) with an independent RFC 6330 reference model (harness/src/rfcref.rs) run in lock-step; release and debug-assertions+overflow-checks profiles; page-heap allocator for C12"},
+        {"name": "rqloom", "path": "harness-loom/", "serves_properties": ["C17"], "kind_free_text": "loom 0.7 (DPOR, controlled scheduler) over the real plan-cache code: shadow manifest compiles /repo/src/lib.rs with loom's Mutex/Arc/lazy_static"},
+        {"name": "rqnostd", "path": "harness-nostd/", "serves_properties": ["C07"], "kind_free_text": "digest workload against the no_std build of the library (release and checked profiles)"},
       ],
       "checks": [],
       "not_applicable": [],
